@@ -68,6 +68,11 @@ type hdOp struct {
 	HasP  bool   `json:"hasp,omitempty"`
 	SU    int    `json:"su,omitempty"` // user id in the room session data
 
+	// joincut: the reply of the backend to this join is held back, the connection is cut while the join is outstanding,
+	// the ops of Mid run (messages of other connections), a new connection C2 resumes the session, the backend replies
+	C2  int    `json:"c2,omitempty"`
+	Mid []hdOp `json:"mid,omitempty"`
+
 	// message / control
 	To  *hdRecipient `json:"to,omitempty"`
 	Tag int          `json:"tag,omitempty"`
@@ -208,6 +213,19 @@ type hdRun struct {
 	vpub   map[string]string // "conn|v" -> public id of the virtual session
 	coq    []string          // executed steps as Coq terms
 	notes  []string
+	// a room join held at the fake backend (forced schedule "joincut"): the gate, and the join as the model's op has it
+	held     *hdHeldJoin
+	inflight []int  // indices of the recorded steps that lie inside the held request
+	insert   []hdOp // ops to run next (set by an op whose forced schedule could not be set up)
+}
+
+type hdHeldJoin struct {
+	sess *ClientSession // the session whose join is held
+	cut  int            // its connection, cut while the join is outstanding
+	gate chan struct{}
+	room int
+	rs   int
+	rep  string
 }
 
 func (r *hdRun) resolve(id *hdIdRef) (string, string) {
@@ -353,6 +371,55 @@ func hdSdp(media int) string {
 }
 
 // exec performs one op on the real system and returns its Coq term.
+// joinRequest: the room message of a join op, the Nextcloud session id number and the reply as the model's op has
+// them; the fake backend is told what to answer.
+func (r *hdRun) joinRequest(o *hdOp) ([]byte, int, string) {
+	s := r.sys
+	s.backend.mu.Lock()
+	s.backend.roomReply = hdRoomReply{Error: o.Err, Permissions: hdPermList(o.Perm), HasPerm: o.HasP, SessionUser: hdUser(o.SU)}
+	s.backend.mu.Unlock()
+	room := map[string]interface{}{"roomid": hdRoom(o.R)}
+	rs := o.RS
+	if rs > 0 && !o.RawRS {
+		// Nextcloud session ids of different backends never coincide (the shared map is a known finding of C03)
+		rs += 10 * (1 + r.backendOfConn(o.C))
+	}
+	if rs > 0 {
+		room["sessionid"] = hdRoomSession(rs)
+	}
+	data, _ := json.Marshal(map[string]interface{}{"id": "j", "type": "room", "room": room})
+	rep := "RepOk None 0"
+	if o.Err != "" {
+		rep = fmt.Sprintf("RepErr %d", hdErrCode(o.Err))
+	} else {
+		p := "None"
+		if o.HasP {
+			p = fmt.Sprintf("(Some %d)", hdPermBits(o.Perm))
+		}
+		rep = fmt.Sprintf("RepOk %s %d", p, o.SU)
+	}
+	return data, rs, rep
+}
+
+func s_connIndexOf(s *hdSystem, sess *ClientSession) int { return s.connIndex(sess.GetClient()) }
+
+// canHold: the join of this op will ask the backend (so its reply can be held back) and the session can be resumed
+// on the new connection: a client session attached to connection C that is not already in the room, C2 unused.
+func (r *hdRun) canHold(o *hdOp) bool {
+	s := r.sys
+	if r.held != nil || s.clients[o.C] == nil || s.clients[o.C2] != nil || o.C2 == o.C || o.R == 0 || r.pub[o.C] == "" || r.priv[o.C] == "" {
+		return false
+	}
+	sess, ok := s.hub.GetSessionByPublicId(r.pub[o.C]).(*ClientSession)
+	if !ok || sess == nil || sess.ClientType() == HelloClientTypeInternal || s.connIndex(sess.GetClient()) != o.C {
+		return false
+	}
+	if room := s.hub.GetRoomForBackend(hdRoom(o.R), sess.Backend()); room != nil && room.HasSession(sess) {
+		return false
+	}
+	return true
+}
+
 func (r *hdRun) exec(o *hdOp) string {
 	s := r.sys
 	c := s.clients[o.C]
@@ -545,31 +612,66 @@ func (r *hdRun) exec(o *hdOp) string {
 		if c == nil {
 			return ""
 		}
-		s.backend.mu.Lock()
-		s.backend.roomReply = hdRoomReply{Error: o.Err, Permissions: hdPermList(o.Perm), HasPerm: o.HasP, SessionUser: hdUser(o.SU)}
-		s.backend.mu.Unlock()
-		room := map[string]interface{}{"roomid": hdRoom(o.R)}
-		rs := o.RS
-		if rs > 0 && !o.RawRS {
-			// Nextcloud session ids of different backends never coincide (the shared map is a known finding of C03)
-			rs += 10 * (1 + r.backendOfConn(o.C))
-		}
-		if rs > 0 {
-			room["sessionid"] = hdRoomSession(rs)
-		}
-		data, _ := json.Marshal(map[string]interface{}{"id": "j", "type": "room", "room": room})
+		data, rs, rep := r.joinRequest(o)
 		s.sendSync(c, data)
-		rep := "RepOk None 0"
-		if o.Err != "" {
-			rep = fmt.Sprintf("RepErr %d", hdErrCode(o.Err))
-		} else {
-			p := "None"
-			if o.HasP {
-				p = fmt.Sprintf("(Some %d)", hdPermBits(o.Perm))
-			}
-			rep = fmt.Sprintf("RepOk %s %d", p, o.SU)
-		}
 		return fmt.Sprintf("OJoin %d %d %d (%s)", o.C, o.R, rs, rep)
+	case "joinhold":
+		// First part of the forced schedule "joincut" (hdRunCase expands it): the join is sent, its request waits at the
+		// fake backend, the connection is cut. The server-side connection is closed (read pump gone) and not yet
+		// unregistered: its handler is inside the join. The model's op for this step is the cut.
+		if c == nil || r.held != nil {
+			return ""
+		}
+		data, rs, rep := r.joinRequest(o)
+		gate := make(chan struct{})
+		s.backend.mu.Lock()
+		s.backend.roomGate = gate
+		s.backend.mu.Unlock()
+		if err := c.send(data); err != nil {
+			s.backend.mu.Lock()
+			s.backend.roomGate = nil
+			s.backend.mu.Unlock()
+			close(gate)
+			return ""
+		}
+		isHeld := false
+		for deadline := time.Now().Add(2 * time.Second); time.Now().Before(deadline) && !isHeld; time.Sleep(200 * time.Microsecond) {
+			isHeld = s.backend.held.Load() > 0
+		}
+		s.backend.mu.Lock()
+		s.backend.roomGate = nil // only this request waits; later joins are answered at once
+		s.backend.mu.Unlock()
+		if !isHeld {
+			// the join never asked the backend (answered before): an ordinary join, then the cut as an ordinary drop
+			close(gate)
+			s.syncOnly(c)
+			r.notes = append(r.notes, "unknown joinhold-not-held")
+			r.insert = []hdOp{{K: "drop", C: o.C}}
+			return fmt.Sprintf("OJoin %d %d %d (%s)", o.C, o.R, rs, rep)
+		}
+		sess, _ := s.hub.GetSessionByPublicId(r.pub[o.C]).(*ClientSession)
+		r.held = &hdHeldJoin{sess: sess, cut: o.C, gate: gate, room: o.R, rs: rs, rep: rep}
+		c.conn.Close()
+		<-c.gone
+		c.mu.Lock()
+		c.closed = true
+		c.mu.Unlock()
+		return fmt.Sprintf("ODrop %d", o.C)
+	case "joinrelease":
+		// Last part of "joincut": the backend answers the held join; the handler of the cut connection completes the
+		// join for the session (which connection C has resumed meanwhile) and the cut connection is unregistered.
+		if r.held == nil {
+			return ""
+		}
+		h := r.held
+		r.held = nil
+		close(h.gate)
+		s.quiesce()
+		if c != nil {
+			s.syncOnly(c)
+			s.quiesce()
+		}
+		return fmt.Sprintf("OJoin %d %d %d (%s)", o.C, h.room, h.rs, h.rep)
 	case "msg", "ctl":
 		if c == nil {
 			return ""
@@ -1218,6 +1320,9 @@ func (r *hdRun) observe() string {
 	// backend requests, canonical order
 	var breqs []string
 	for _, q := range s.backend.take() {
+		if q.Type == "room-held" {
+			continue
+		}
 		kind := map[string]int{"auth": 0, "room": 1, "session": 2, "ping": 3, "auth-held": 4}[q.Type]
 		action := map[string]int{"": 0, "join": 0, "leave": 1, "add": 2, "remove": 3}[q.Action]
 		sess := "0"
@@ -1415,6 +1520,24 @@ func hdRunCase(t *testing.T, c *hdCase) (string, *hdRun) {
 			}
 			continue
 		}
+		if o.K == "joincut" {
+			// forced schedule inside one request: join held at the backend, connection cut, (messages), resume on a new
+			// connection, the backend answers. Where the join cannot be held (it does not ask the backend) the same ops
+			// run one after the other.
+			j := *o
+			j.Mid = nil
+			var rest []hdOp
+			resume := []hdOp{{K: "connect", C: o.C2, Addr: o.Addr}, {K: "hello", C: o.C2, Ht: "resume", Id: &hdIdRef{T: "priv", C: o.C}}}
+			if r.canHold(o) {
+				j.K = "joinhold"
+				rest = append(append(append([]hdOp{j}, o.Mid...), resume...), hdOp{K: "joinrelease", C: o.C2})
+			} else {
+				j.K = "join"
+				rest = append(append([]hdOp{j, {K: "drop", C: o.C}}, o.Mid...), resume...)
+			}
+			ops = append(ops[:i+1:i+1], append(rest, ops[i+1:]...)...)
+			continue
+		}
 		if o.K == "mcuflush" {
 			// complete every pending creation, oldest first, one step each
 			if sys.mcu.firstPending(0) != 0 {
@@ -1437,10 +1560,23 @@ func hdRunCase(t *testing.T, c *hdCase) (string, *hdRun) {
 			}
 			sys.hub.mu.RUnlock()
 		}
+		if len(r.insert) > 0 {
+			ops = append(ops[:i+1:i+1], append(r.insert, ops[i+1:]...)...)
+			r.insert = nil
+		}
 		if term == "" {
 			continue
 		}
+		if r.held != nil && r.held.sess != nil && s_connIndexOf(sys, r.held.sess) == r.held.cut {
+			// the cut connection is still attached to its session (its handler is inside the held join): the model has
+			// detached it with the cut; once the session is resumed the tables agree again
+			r.inflight = append(r.inflight, len(steps))
+		}
 		steps = append(steps, fmt.Sprintf("(%s, %s, %s)", term, obs, r.digestTerm()))
+	}
+	if r.held != nil {
+		close(r.held.gate)
+		r.held = nil
 	}
 	if sys.unsettled > 0 {
 		r.notes = append(r.notes, fmt.Sprintf("unsettled %d", sys.unsettled))
